@@ -204,3 +204,24 @@ def yt_contains(p, shape):
     l1, l2 = greene_rows(p)
     rows = [l1, l2]
     return all(rows[i] >= s for i, s in enumerate(shape))
+
+
+def lds_len(seq):
+    return lis_len([-v for v in seq])
+
+
+def second_row_at_least_2(p):
+    """lambda_2 >= 2 in the RSK shape, by Greene's theorem: some subsequence of length lambda_1 + 2 has no
+    decreasing subsequence of length 3 (it is then a union of two increasing subsequences)"""
+    n, l1 = len(p), lis_len(p)
+    if l1 + 2 > n:
+        return False
+    return any(lds_len([p[i] for i in sub]) <= 2 for sub in itertools.combinations(range(n), l1 + 2))
+
+
+def yt_contains_22(p):
+    return second_row_at_least_2(p)
+
+
+def yt_contains_32(p):
+    return lis_len(p) >= 3 and second_row_at_least_2(p)
